@@ -1,3 +1,4 @@
 pub mod re;
 pub mod smt;
+pub mod smtlib;
 pub mod snap;
